@@ -298,9 +298,14 @@ def check_printer(repo: Repo, rep: Report, h: Harness) -> Dict[str, str]:
             bad = None
             for n in ars:
                 vec = vecs[n]
-                got = ce(h.tree(res, op, vec))
+                tree_ = h.tree(res, op, vec)
+                got = ce(tree_)
                 want = "({} {})".format(SUGAR_NAME[op], " ".join(ce(v) for v in vec))
                 if got != want:
+                    # another spelling is fine as long as Sugar reads the same meaning from it (e.g. `x` for `(+ x)`)
+                    if op not in native and _means_the_same(got, tree_, {"b1": x, "b2": y, "b3": z, "i4": p, "i5": q, "i6": r}):
+                        rep.info(f"OPC-4: Op.{op} with {n} operand(s) is printed as {got!r} rather than {want!r}: same meaning")
+                        continue
                     bad = (n, got, want)
                     break
             if bad:
@@ -366,6 +371,25 @@ def check_printer(repo: Repo, rep: Report, h: Harness) -> Dict[str, str]:
 
 class SugarSyntax(Exception):
     pass
+
+
+def _means_the_same(text: str, tree: Any, leaves: Dict[str, Any]) -> bool:
+    """the text, read with the Sugar grammar, has the tree's reference meaning for every valuation of the leaves over small grids"""
+    try:
+        sx = sugar_parse(text)
+        names_i = [k for k in leaves if k.startswith("i")]
+        names_b = [k for k in leaves if k.startswith("b")]
+        for iv in itertools.product((-2, 0, 3), repeat=len(names_i)):
+            for bv in itertools.product((False, True), repeat=len(names_b)):
+                val = dict(zip(names_i, iv)) | dict(zip(names_b, bv))
+                by_id = {id(leaves[k]): v for k, v in val.items()}
+                got = sugar_eval(sx, val)
+                want = _tree_value(tree, by_id)
+                if got != want or type(got) is not type(want):
+                    return False
+        return True
+    except (SugarSyntax, KeyError, TypeError, IndexError):
+        return False
 
 
 def sugar_parse(text: str) -> Any:
